@@ -215,7 +215,7 @@ def generate(rng, prop, tier):
         sc['fn'] = rng.choice(['sample', 'sample_square', 'sample_square_unique', 'sample_square_unique', 'sample_lhs', 'sample_rand', 'sample_tt'])
         sc['policy'] = rng.choice(['prng', 'prng', 'max', 'min'])
         sc['m'] = rng.choice([1, 2, 3, 5])
-        sc['tkind'] = 'pos' if sc['fn'] == 'sample' else 'normal'
+        sc['tkind'] = 'pos' if sc['fn'] == 'sample' else rng.choice(['normal', 'hdscaled', 'hdscaled'])
         sc['rtt'] = rng.randint(1, 2)
         sc['use'] = rng.choice(['simgen', 'int', 'generator'])
         sc['highdim'] = True
@@ -242,6 +242,11 @@ def generate(rng, prop, tier):
             sc['r'] = 1
         sc['rtt'] = rng.randint(1, 3)
         sc['use'] = rng.choice(['simgen', 'simgen', 'int', 'generator'])
+        if sc['fn'] in ('sample_lhs', 'sample_rand', 'sample_rand_poi', 'sample_tt') and rng.random() < 0.35:
+            # long modes (and sample counts below / slightly above a mode size)
+            sc['n'] = [rng.choice([16, 17, 40, 64, 100, 200, 300]) if rng.random() < 0.7 else rng.randint(2, 6) for _ in range(rng.randint(2, 4))]
+            sc['m'] = rng.choice([1, 2, 3, 4, 5, 7, 17, 33, 65, 201, 210])
+            sc['rtt'] = rng.randint(1, 2)
         sc['ntype'] = rng.choice(['list', 'list', 'array', 'farray', 'flist', 'mixed'])     # "list or np.ndarray of int/float"
         sc['mfloat'] = rng.random() < 0.3                                                  # "m (int, float)"
     else:
@@ -264,6 +269,11 @@ def build_tensor(sc):
         k = int(g.integers(0, len(n)))
         Y[k] = Y[k] * 10.0 ** float(-g.integers(3, 10))
         return Y
+    if kind == 'hdscaled':
+        # many cores of magnitude 2^-27 or 2^26 each: the norm of the tensor is far outside the double range, every core is harmless
+        Y = make_tt(n, r, sc['tseed'], dist='normal')
+        f = 2.0 ** float(g.choice([-27, -27, 26, -60]))
+        return [G * f for G in Y]
     if kind in ('normal', 'scaled'):
         Y = make_tt(n, r, sc['tseed'], dist='normal')
         if kind == 'scaled':
